@@ -3,7 +3,7 @@ extern crate std;
 #[allow(unused_imports)]
 use std::{vec, vec::Vec};
 use crate::vk_support::*;
-use crate::{dcs, Display};
+use crate::{dcs, options, Display};
 
 type Disp<'a, const W: u16, const H: u16> = Display<RecIface<'a, u8, 0>, FbModel<W, H>, MockPin<'a>>;
 
@@ -143,3 +143,116 @@ fn c10_set_orientation<const W: u16, const H: u16>() {
 fn c10_set_orientation_240x320() { c10_set_orientation::<240, 320>() }
 #[kani::proof]
 fn c10_set_orientation_max() { c10_set_orientation::<65535, 65535>() }
+
+// ---------------------------------------------------------------------------------------------- C13
+type CDisp<'a> = Display<CtrlMock<'a, 0>, FbModel<240, 320>, MockPin<'a>>;
+
+/// any display whose flag agrees with the controller (the invariant), any time since the last sleep command >= 120 ms
+fn any_consistent<'a>(clock: &'a Clock) -> CDisp<'a> {
+    let options = any_valid_options(240, 320);
+    let madctl = dcs::SetAddressMode::from(&options);
+    let sleeping: bool = kani::any();
+    let mut di: CtrlMock<0> = CtrlMock::new(clock);
+    di.sleeping = sleeping;
+    di.on = true;
+    di.t_slp_ns = Some(0);
+    clock.ns.set(120_000_000 + kani::any::<u32>() as u64);
+    Display { di, model: FbModel::<240, 320>, rst: None, options, madctl, sleeping }
+}
+
+/// induction step of "is_sleeping() == controller sleep state" and of the 120 ms spacing, for every operation,
+/// with an optional injected bus failure
+#[kani::proof]
+fn c13_step_preserves_sleep_invariant() {
+    let clock = Clock::new();
+    let mut d = any_consistent(&clock);
+    let before = d.is_sleeping();
+    clock.fail_at.set(if kani::any() { 0 } else { u32::MAX });
+    let mut delay = MockDelay(&clock);
+    let op: u8 = kani::any();
+    kani::assume(op < 6);
+    let t0 = clock.ns.get();
+    let r = match op {
+        0 => d.sleep(&mut delay),
+        1 => d.wake(&mut delay),
+        2 => d.set_orientation(any_orientation()),
+        3 => d.set_pixel(0, 0, any_color()),
+        4 => d.set_vertical_scroll_offset(kani::any()),
+        _ => d.set_tearing_effect(options::TearingEffect::Vertical),
+    };
+    assert!(d.is_sleeping() == d.di.sleeping, "C13: flag differs from the controller's sleep state");
+    if r.is_ok() {
+        match op {
+            0 => assert!(d.is_sleeping(), "C13: sleeping after sleep"),
+            1 => assert!(!d.is_sleeping(), "C13: awake after wake"),
+            _ => assert!(d.is_sleeping() == before, "C13: flag changed by an unrelated call"),
+        }
+        if op < 2 {
+            assert!(clock.ns.get() >= d.di.t_slp_ns.unwrap() + 120_000_000, "C13: 120 ms after the sleep command before returning");
+            assert!(d.di.t_slp_ns.unwrap() >= t0, "C13: command sent before the delay");
+        }
+    } else {
+        assert!(d.is_sleeping() == before, "C13: flag changed although the command failed");
+    }
+    assert!(d.di.min_slp_gap_ns >= 120_000_000, "C13: sleep commands less than 120 ms apart");
+    kani::cover!(op == 0 && r.is_ok());
+    kani::cover!(op == 1 && r.is_err());
+}
+
+// ------------------------------------------------------------------------------- C12 (Display-level faults)
+/// fail the k-th Interface operation of any Display call: Err is returned, nothing further is issued, state is
+/// intact and the display still draws correctly once the fault has cleared.
+#[kani::proof]
+fn c12_display_call_fault() {
+    let clock = Clock::new();
+    let mut d = any_display::<240, 320>(&clock);
+    let k: u32 = kani::any();
+    clock.fail_at.set(k);
+    let mut delay = MockDelay(&clock);
+    let before = d.options.clone();
+    let slp = d.sleeping;
+    let o2 = any_orientation();
+    let op: u8 = kani::any();
+    kani::assume(op < 8);
+    let (lw, lh) = oracle_logical_size(d.options.orientation, d.options.display_size.0, d.options.display_size.1);
+    let r = match op {
+        0 => d.sleep(&mut delay),
+        1 => d.wake(&mut delay),
+        2 => d.set_orientation(o2),
+        3 => d.set_pixel(lw - 1, lh - 1, any_color()),
+        4 => d.set_vertical_scroll_offset(kani::any()),
+        5 => d.set_vertical_scroll_region(kani::any(), kani::any()),
+        6 => d.set_tearing_effect(options::TearingEffect::HorizontalAndVertical),
+        _ => {
+            use embedded_graphics_core::draw_target::DrawTarget;
+            use embedded_graphics_core::primitives::Rectangle;
+            use embedded_graphics_core::geometry::{Point, Size};
+            d.fill_solid(&Rectangle::new(Point::new(0, 0), Size::new(2, 2)), any_color())
+        }
+    };
+    let n = clock.ops.get();
+    match r {
+        Ok(()) => assert!(n <= k, "C12: a failing operation was swallowed"),
+        Err(_) => assert!(n == k + 1, "C12: operations issued after the failing one"),
+    }
+    // nothing wedged: driver state is consistent and a later draw is placed correctly
+    if r.is_err() || op != 2 {
+        if op != 2 { assert!(d.options.orientation == before.orientation, "C12: orientation changed by an unrelated call"); }
+    }
+    if op >= 2 { assert!(d.sleeping == slp, "C12: sleep flag changed"); }
+    assert!(d.madctl == dcs::SetAddressMode::from(&d.options), "C12: cached address mode inconsistent with the options after the call");
+    clock.fail_at.set(u32::MAX);
+    let held = if r.is_ok() && op == 2 { o2 } else { before.orientation };
+    assert!(d.options.orientation == held, "C12: driver orientation differs from what the controller holds");
+    let m0 = d.di.ncmd;
+    let (lw, lh) = oracle_logical_size(d.options.orientation, d.options.display_size.0, d.options.display_size.1);
+    let (x, y): (u16, u16) = (kani::any(), kani::any());
+    kani::assume(x < lw && y < lh);
+    assert!(d.set_pixel(x, y, any_color()).is_ok(), "C12: drawing fails after the fault has cleared");
+    let want = oracle_madctl(d.options.color_order, held, d.options.refresh_order);
+    let (sc, sr, ec, er) = window_at(&d, m0);
+    assert!(sc == ec && sr == er, "C12: window");
+    assert_lands(&d, want, sc, sr, x, y);
+    kani::cover!(r.is_err() && op == 7);
+    kani::cover!(r.is_err() && op == 2);
+}
